@@ -227,8 +227,9 @@ SPECS = {
         "engines": [
             {"name": "c20", "n": {"quick": 1200, "thorough": 12000}},
             {"name": "hist", "tag": "c20snap", "extra": "prop=C20", "n": {"quick": 200, "thorough": 3000}, "seed_off": 5},
+            {"name": "hist", "tag": "c20compact", "extra": "prop=C20,compact=1", "n": {"quick": 200, "thorough": 3000}, "seed_off": 9},
         ],
-        "explanation": "Theorems about the ChangeStore model (Cache/ChangeStore.v): transparency and no-refetch for every disciplined call sequence, sequences in which the fetcher fails in the middle of an EnsureChanges included (only the ranges fetched before the failure count as fetched: C20_failed_fetch_marks_only_fetched); the model is compared with the real mongo.ChangeStore on random op sequences over tables with holes; the transparency oracle is also evaluated directly on the implementation. Snapshot cache: theorems on the model of BuildInternalDocForServerSeq (every rebuild after any sequence of pushes, stored snapshots, purges and rebuilds returns the replay of the stored changes; the guard on the cached sequence is needed; with the rebuild's garbage collection over time (Cache/SnapGC.v) caching only documents built at the head never blocks a later rebuild, and caching any rebuild is refuted); every rebuild of the history engine (head as-is/warm/after caller mutation, an older sequence with the head cached, the head again) is compared with the store alone and its recorded storage calls with the model's plan (finding P55, repaired by e2685b8d: an older-sequence rebuild left a garbage-collected entry in the cache).",
+        "explanation": "Theorems about the ChangeStore model (Cache/ChangeStore.v): transparency and no-refetch for every disciplined call sequence, sequences in which the fetcher fails in the middle of an EnsureChanges included (only the ranges fetched before the failure count as fetched: C20_failed_fetch_marks_only_fetched); the model is compared with the real mongo.ChangeStore on random op sequences over tables with holes; the transparency oracle is also evaluated directly on the implementation. Snapshot cache: theorems on the model of BuildInternalDocForServerSeq (every rebuild after any sequence of pushes, stored snapshots, purges and rebuilds returns the replay of the stored changes; the guard on the cached sequence is needed; with the rebuild's garbage collection over time (Cache/SnapGC.v) caching only documents built at the head never blocks a later rebuild, and caching any rebuild is refuted); every rebuild of the history engine (head as-is/warm/after caller mutation, an older sequence with the head cached, the head again; a second set of histories with compactions, where the entry must not survive the log reset) is compared with the store alone and its recorded storage calls with the model's plan (finding P55, repaired by e2685b8d: an older-sequence rebuild left a garbage-collected entry in the cache).",
         "assumptions": [
             "caller obligations of mongo/client.go (inserted items are table rows; a range is expanded only after its rows were inserted; new rows are not yet covered) are hypotheses of the theorem; the MongoDB client code that must honour them cannot run here",
             "btree and sort.Slice are abstracted to sorted lists",
